@@ -212,8 +212,8 @@ def random_case(rng, table):
                 ds = table[tid][v]
         if ds:
             display = rng.choice(ds)
-    retries = rng.choice([0, 1, 1, 2, 2, 3, 3, 3, 5])
-    T = rng.choice([1000, 2000, 2000, 5000, 5000, 700, 1200, 1500, 2500, 3000])
+    retries = rng.choice([0, 1, 1, 2, 2, 3, 3, 3, 5, 4, 6, 7, -1, -3])           # negative: an exhausted budget (`retries <= 0`)
+    T = rng.choice([1000, 2000, 2000, 5000, 5000, 700, 1200, 1500, 2500, 3000, 100, 333, 1100, 4321])   # 0.1 s, 0.333 s ...: not multiples of the 125 ms clock steps
     ev.append(f"c:{v}:{retries}:{T}")
     third = rng.choice([x for x in range(0, 255) if x not in (v, value)])
     for _ in range(rng.randint(0, 14)):
@@ -348,7 +348,8 @@ def deferred_cases(table):
                                   display, fresh=False, route=route) | dict(defer=True)
 
 
-ROUTE_RT = ((1, 1200), (3, 700), (2, 3000), (4, 1500), (2, 5000), (3, 5000), (1, 5000), (5, 1200), (5, 700), (5, 5000), (0, 1200))
+ROUTE_RT = ((1, 1200), (3, 700), (2, 3000), (4, 1500), (2, 5000), (3, 5000), (1, 5000), (5, 1200), (5, 700), (5, 5000), (0, 1200),
+            (-2, 1200), (7, 100))
 
 
 def route_cases(table, tier):
